@@ -18,6 +18,13 @@ pub fn scenarios() -> Vec<(Op, Fmt, Binding)> {
     let mut v = Vec::new();
     for op in ops::ALL_OPS {
         for f in assets::ALL {
+            if op == Op::Embeddable && !matches!(f, Fmt::Jpeg | Fmt::Png | Fmt::Gif | Fmt::Jxl) {
+                continue;
+            }
+            if op == Op::Embeddable {
+                v.push((op, f, Binding::Default));
+                continue;
+            }
             v.push((op, f, Binding::Default));
             if sdk::fmt_supports_box(f) && !matches!(op, Op::JumbfLoad | Op::JumbfSave) {
                 v.push((op, f, Binding::Box));
